@@ -22,6 +22,8 @@ SmallEntriesFor(AA) ==
   { E("bps", v, "OK", "F1") : v \in {1, 5000, 10000, 0, 10001} } \cup { E("bps", 3333, "OK", "F2") }
   \cup { E("fix", v, "OK", "F2") : v \in {1, AA - 1, AA, 0} } \cup { E("fix", 5, "NEG", "F1"), E("bps", 100, "OK", "INVALID"),
                                                                      E("fix", 5, "BIG256", "F1"), E("fix", 1, "OK", "INVALID"),
+                                                                     E("bps", 100, "OK", "F1_MIXED"), E("fix", 1, "OK", "F1_UPPER"), E("bps", 100, "OK", "F1_SPACE"),
+                                                                     E("bps", 100, "OK", "ORB_MIXED"), E("fix", 1, "OK", "OTHER_HRP"),
                                                                      E("fix", 2, "OK", "EMPTY"), E("fix", 2, "OK", "OTHER_HRP") }
 
 \* Amounts is sharded by the driver (one TLC process per amount): full = {1, 2, 3, 9999, 10000,
